@@ -408,7 +408,12 @@ class FactoryRun:
 
     def build(self):
         spec = self.spec
-        random.seed(spec.get("seed", 0))
+        if spec.get("late_seed"):
+            # the user builds the model first and sets the experiment seed afterwards, just before run(): whatever the global
+            # generator held while the model was being built (late_seed = an arbitrary earlier state) must not matter
+            random.seed(987654321 + 7919 * int(spec["late_seed"]))
+        else:
+            random.seed(spec.get("seed", 0))
         if spec.get("via"):
             return self.build_via_constructs()
         order = spec.get("order") or ([n["id"] for n in spec["nodes"]] + [e["id"] for e in spec["edges"]])
@@ -483,6 +488,8 @@ class FactoryRun:
             for o in self.oracles:
                 o.finish(self)
             return self
+        if self.spec.get("late_seed"):
+            random.seed(self.spec.get("seed", 0))
         for o in self.oracles:
             o.start(self)
         T = self.T
